@@ -204,6 +204,7 @@ def run(idx: ProgramIndex, rep: Report, tier: str):
         "C03-4": "memo entries whose value depends on a setting are keyed by it or validated by every reachable consumer",
         "C03-5": "argument-ignoring memo entries that use their argument are validated against the current argument by every consumer",
         "C03-6": "temporary mutation of shared module state is restored on every normal path",
+        "C03-8": "no method overwrites a tensor owned by the object (cache entry, parameter, buffer, training data) in place, except the `.data` initialisation idiom and flag fill_()",
         "C03-7": "memo primitives: the three key builders agree, args/kwargs enter the key, clear_cache_hook rebinds to an empty dict",
     }
     for k, v in rules.items():
@@ -216,6 +217,7 @@ def run(idx: ProgramIndex, rep: Report, tier: str):
     ignore_args(idx, rep)
     temp_mutation(idx, rep, tier)
     memo_primitives(idx, rep)
+    state_not_overwritten(idx, rep)
     rep.assume("regulariser/precision settings (variational_cholesky_jitter, cholesky_jitter, _linalg_dtype_cholesky) are not changed between two evaluation-mode calls on the same model: gpytorch caches Cholesky factors computed with them by design")
     rep.assume("settings read only inside linear_operator (CG vs Cholesky, Lanczos rank) select between algorithms for the same quantity (the 'iterative paths at tight tolerance' caveat of C01)")
     rep.assume("direct parameter edits while staying in eval mode are outside the documented invalidation points (excluded by the property)")
@@ -1032,3 +1034,22 @@ def positive_control(idx: ProgramIndex, rep: Report):
             ci = idx.classes.pop(k)
             idx.by_name[ci.name].remove(ci)
         del idx.modules["gpytorch._verif_control_c03"]
+
+
+# ---- C03-8 ---------------------------------------------------------------------------------------------------------
+def state_not_overwritten(idx: ProgramIndex, rep: Report):
+    """A cached value (or any tensor the object owns) that is updated in place by a later call makes the next output depend on
+    the call history.  Storage/version domain with `self.<attr>` reads typed as object-owned storage, over every method of every
+    gpytorch Module, prediction strategy and lazy tensor."""
+    from .common_alias import aliasing_obligations
+    funcs = []
+    gm = gp_module(idx)
+    classes = list(idx.subclasses(gm)) + list(idx.subclasses(idx.find_class("DefaultPredictionStrategy"))) + [idx.find_class("LazyEvaluatedKernelTensor")]
+    for c in classes:
+        if "keops" in c.module.name:
+            continue
+        for name, m in c.methods.items():
+            if name in ("__init__", "initialize", "_apply", "local_load_samples", "__setstate__", "__getstate__") or name.startswith("initialize"):
+                continue
+            funcs.append(m)
+    aliasing_obligations(idx, rep, "C03-8", funcs, 400, "methods interpreted for in-place updates of object-owned tensors", only_state=True)
